@@ -4,6 +4,7 @@
 // license that can be found in the LICENSE file or at
 // https://opensource.org/licenses/MIT.
 
+use parking_lot::RwLock;
 use std::sync::Arc;
 
 use nerdondon_hopscotch::concurrent_skiplist::{ConcurrentSkipList, SkipNode};
@@ -44,6 +45,17 @@ pub trait MemTable: Send + Sync {
 pub(crate) struct SkipListMemTable {
     /// The actual skip list backing the memtable.
     store: Arc<ConcurrentSkipList<InternalKey, Vec<u8>>>,
+
+    /**
+    Keeps traversals of the skip list apart from an insertion.
+
+    The skip list links a new node into the towers of its predecessors (and grows the head) with
+    plain, non-atomic updates, so a traversal that runs at the same moment can take a level, or
+    the rest of the list, for empty and miss entries that were inserted long before. Readers share
+    the lock for the length of one traversal; the single writer takes it exclusively for one
+    insertion.
+    */
+    access: Arc<RwLock<()>>,
 }
 
 /// Public methods
@@ -52,6 +64,7 @@ impl SkipListMemTable {
     pub fn new() -> Self {
         Self {
             store: Arc::new(ConcurrentSkipList::new(None)),
+            access: Arc::new(RwLock::new(())),
         }
     }
 }
@@ -66,6 +79,7 @@ impl MemTable for SkipListMemTable {
         SAFETY:
         RainDB enforces that there is only a single writer adding to the memtable at a time.
         */
+        let _exclusive = self.access.write();
         unsafe { self.store.insert_with_size(key, value) }
     }
 
@@ -82,7 +96,10 @@ impl MemTable for SkipListMemTable {
             let (current_key, _current_val) = iter.current().unwrap();
             if current_key.get_user_key() == key.get_user_key() {
                 match current_key.get_operation() {
-                    crate::Operation::Put => return Ok(self.store.get(current_key)),
+                    crate::Operation::Put => {
+                        let _shared = self.access.read();
+                        return Ok(self.store.get(current_key));
+                    }
                     crate::Operation::Delete => return Ok(None),
                 }
             }
@@ -92,12 +109,18 @@ impl MemTable for SkipListMemTable {
     }
 
     fn iter(&self) -> Box<dyn RainDbIterator<Key = InternalKey, Error = RainDBError>> {
-        Box::new(SkipListMemTableIter {
-            store: Arc::clone(&self.store),
-            current_entry: self.store.first_node().map(|node| {
+        let current_entry = {
+            let _shared = self.access.read();
+            self.store.first_node().map(|node| {
                 let (key, value) = node.get_entry();
                 (key.clone(), value.clone())
-            }),
+            })
+        };
+
+        Box::new(SkipListMemTableIter {
+            store: Arc::clone(&self.store),
+            access: Arc::clone(&self.access),
+            current_entry,
         })
     }
 
@@ -124,6 +147,9 @@ struct SkipListMemTableIter {
     /// A reference to the skip list backing the memtable.
     store: Arc<ConcurrentSkipList<InternalKey, Vec<u8>>>,
 
+    /// Shared for the length of every traversal (see [`SkipListMemTable::access`]).
+    access: Arc<RwLock<()>>,
+
     /// The key-value pair that was found last.
     current_entry: Option<(InternalKey, Vec<u8>)>,
 }
@@ -146,6 +172,7 @@ impl RainDbIterator for SkipListMemTableIter {
     }
 
     fn seek(&mut self, target: &Self::Key) -> Result<(), Self::Error> {
+        let _shared = self.access.read();
         self.current_entry = self
             .store
             .find_greater_or_equal_node(target)
@@ -155,6 +182,7 @@ impl RainDbIterator for SkipListMemTableIter {
     }
 
     fn seek_to_first(&mut self) -> Result<(), Self::Error> {
+        let _shared = self.access.read();
         self.current_entry = self
             .store
             .first_node()
@@ -164,6 +192,7 @@ impl RainDbIterator for SkipListMemTableIter {
     }
 
     fn seek_to_last(&mut self) -> Result<(), Self::Error> {
+        let _shared = self.access.read();
         self.current_entry = self
             .store
             .last_node()
@@ -177,12 +206,14 @@ impl RainDbIterator for SkipListMemTableIter {
             return None;
         }
 
+        let shared = self.access.read();
         self.current_entry = self.current_entry.take().and_then(|(key, _value)| {
             self.store
                 .find_greater_or_equal_node(&key)
                 .and_then(|node| node.next())
                 .map(SkipListMemTableIter::owned_entry_from_node)
         });
+        drop(shared);
         self.current()
     }
 
@@ -201,10 +232,12 @@ impl RainDbIterator for SkipListMemTableIter {
         }
 
         let (curr_key, _) = self.current_entry.take().unwrap();
+        let shared = self.access.read();
         self.current_entry = self
             .store
             .find_less_than_node(&curr_key)
             .map(SkipListMemTableIter::owned_entry_from_node);
+        drop(shared);
         self.current()
     }
 
